@@ -1,7 +1,7 @@
 import BigtreeModel.Proto
 import BigtreeModel.Iter
 import BigtreeModel.Render
-import BigtreeModel.Generated.Tables
+import BigtreeModel.RenderStyles
 /-! Driver handler for property C18 (renderings). One case per line:
 
 * `op=yield|print style=<S> md=<n> start=<i> nnp=<xhex> [attrs=-|all|xk,xk omit=0|1 br=xopen:xclose] (T tree | B btree)`
@@ -32,17 +32,12 @@ def parseStyle (s : String) : Option (Option Style) :=
     let _ ← rest.mapM unhex
     pure none               -- a list that does not hold 3 strings: ValueError
   | [k] =>
-    match Generated.printStyles.find? (·.1 == k) with
-    | some (_, a, b, c) =>
-      let st : Style := ⟨a.toList, b.toList, c.toList⟩
-      some (if st.lengthsOk then some st else none)
+    match builtinStyles.find? (·.1 == k) with
+    | some (_, st) => some (if st.lengthsOk then some st else none)
     | none => some none     -- assert_style_in_dict raises
   | _ => none
 
-def mkH (l : List Str) : Option HStyle :=
-  match l with
-  | [[a], [b], [c], [d], [e], [f], [g]] => some ⟨a, b, c, d, e, f, g⟩
-  | _ => none
+def mkH (l : List Str) : Option HStyle := mkHStyle l
 
 def parseHStyle (s : String) : Option (Option HStyle) :=
   match s.splitOn ":" with
@@ -50,8 +45,8 @@ def parseHStyle (s : String) : Option (Option HStyle) :=
     let l ← rest.mapM unhex
     pure (mkH l)            -- not 7 icons, or an icon that is not one character: ValueError
   | [k] =>
-    match Generated.hprintStyles.find? (·.1 == k) with
-    | some (_, l) => some (mkH (l.map String.toList))
+    match builtinHStyles.find? (·.1 == k) with
+    | some (_, S?) => some S?
     | none => some none
   | _ => none
 
